@@ -5,7 +5,7 @@ from __future__ import annotations
 import ast
 import re
 
-from ..astutil import attr_chain, call_attr, calls_in, guard_facts, unparse, walk_local
+from ..astutil import attr_chain, call_attr, calls_in, guard_facts, unparse, walk_local, text_facts
 from ..cfg import CFG
 from ..dataflow import reaching_defs
 from ..report import Finding, Report
@@ -337,7 +337,7 @@ def check(idx: Index, rep: Report, tier: str) -> str:
         plain = [c for c in calls_in(f.node) if unparse(c.func) == "self._worklist.remove" and unparse(c.args[0]) == opn]
         bad = False
         for c in plain:
-            facts = [(unparse(t), pol) for t, pol in guard_facts(f.node, c)]
+            facts = text_facts(f.node, c)
             if not any(t == f"{opn}.regions" and pol is False for t, pol in facts) and not all(cfg.path_avoiding(cfg.entry, cfg.node_of(c), lambda n: n.kind == "for" and f"{opn}.walk()" in n.text()) is None for _ in [0]):
                 bad = True
         if bad:
